@@ -34,7 +34,12 @@ def main():
         for a in asm: s.add(a)
         s.add(o.pc); s.add(z3.Not(o.goal))
         if s.check() != z3.sat:
-            print("in-process z3 could not reproduce the model"); continue
+            print("in-process z3 could not reproduce the model; trying the string-abstracted query (model may be spurious)")
+            fs = solve.abstract_strings(list(asm) + [o.pc, z3.Not(o.goal)])
+            s = z3.Solver(); s.set("timeout", 60000)
+            for f in fs: s.add(f)
+            if s.check() != z3.sat:
+                print("no model either"); continue
         m = s.model()
         def ev(t):
             try: return m.eval(t, model_completion=True)
